@@ -34,6 +34,25 @@ ALLOWED = {
 HOOKS = {"__copy__", "__deepcopy__", "__getstate__", "__setstate__", "__eq__", "__ne__", "__hash__", "__reduce_ex__", "__getnewargs__"}
 
 
+def _only_from(ctx, where, allowed, _seen=None):
+    """*where* is an allowed construction site, or a helper every call of which comes (transitively) from one:
+    splitting the cache's own constructor code into private helpers does not add a second construction site."""
+    if where in allowed:
+        return True
+    _seen = _seen or set()
+    if where in _seen:
+        return True              # recursion among helpers: decided by the other callers
+    cg = ctx.src.callgraph()
+    if where not in cg:
+        return False
+    callers = list(cg.predecessors(where))
+    name = where.rsplit(".", 1)[-1]
+    if not callers or not name.startswith("_") or name.startswith("__"):
+        return False             # a public function can be called by anyone
+    # a private helper referred to other than by a call (stored, passed on) could be invoked from anywhere
+    return all(_only_from(ctx, c, allowed, _seen | {where}) for c in callers)
+
+
 def run(ctx):
     F = folder(ctx)
     base = F.const("core", "element_base")
@@ -52,7 +71,7 @@ def run(ctx):
         for mod, node in sites:
             where = ctx.src.enclosing_function(mod, node)
             found = True
-            ok = where in allowed
+            ok = _only_from(ctx, where, allowed)
             (ctx.ok if ok else ctx.fail)("R1", f"{cls}(...) at {where}", *([] if ok else [f"{cls} objects may only be created inside their cache "
                                          f"({sorted(allowed)}); a second construction site makes two objects for one atom"]),
                                          **({"site": f"{ctx.src.where(mod, node)} {where}"}))
